@@ -36,6 +36,7 @@ import (
 	"go.temporal.io/server/common/log"
 	"google.golang.org/grpc"
 	"google.golang.org/grpc/metadata"
+	"google.golang.org/grpc/stats"
 	"google.golang.org/grpc/status"
 
 	"github.com/temporalio/s2s-proxy/endtoendtest/testservices"
@@ -76,6 +77,63 @@ type vccSess struct {
 	sick     bool
 	cfg      *yamux.Config // the pool side's yamux config (its ConnectionWriteTimeout is read at every call)
 	peerConn *vccPeerConn
+	lis      *vccRecListener
+}
+
+// vccRecListener remembers the yamux streams the peer's gRPC server accepted (each is one gRPC transport), so that the
+// harness can lose a transport without touching the mux session that carries it.
+type vccRecListener struct {
+	net.Listener
+	mu       sync.Mutex
+	conns    []net.Conn
+	accepted int
+	shaken   atomic.Int64 // transports whose handshake completed (stats.ConnBegin)
+}
+
+func (l *vccRecListener) Accept() (net.Conn, error) {
+	c, err := l.Listener.Accept()
+	if err == nil {
+		l.mu.Lock()
+		l.conns = append(l.conns, c)
+		l.accepted++
+		l.mu.Unlock()
+	}
+	return c, err
+}
+
+// ready: every accepted stream has finished its HTTP/2 handshake (the server reports ConnBegin after it)
+func (l *vccRecListener) ready() bool {
+	l.mu.Lock()
+	defer l.mu.Unlock()
+	return int64(l.accepted) == l.shaken.Load()
+}
+
+func (l *vccRecListener) TagConn(ctx context.Context, _ *stats.ConnTagInfo) context.Context {
+	return ctx
+}
+func (l *vccRecListener) HandleConn(_ context.Context, s stats.ConnStats) {
+	if _, ok := s.(*stats.ConnBegin); ok {
+		l.shaken.Add(1)
+	}
+}
+func (l *vccRecListener) TagRPC(ctx context.Context, _ *stats.RPCTagInfo) context.Context { return ctx }
+func (l *vccRecListener) HandleRPC(context.Context, stats.RPCStats)                       {}
+
+// reset closes every transport stream accepted so far; returns how many were accepted up to now
+func (l *vccRecListener) reset() int {
+	l.mu.Lock()
+	defer l.mu.Unlock()
+	for _, c := range l.conns {
+		_ = c.Close()
+	}
+	l.conns = nil
+	return l.accepted
+}
+
+func (l *vccRecListener) count() int {
+	l.mu.Lock()
+	defer l.mu.Unlock()
+	return l.accepted
 }
 
 // vccPeerConn is the peer's end of the pipe. While ackBudget >= 0 the peer answers only that many more yamux pings: the
@@ -571,10 +629,12 @@ func (h *vccHarness) exec(cmd vccCmd, idx int) bool {
 			panic(err)
 		}
 		if !cmd.W { // a wedged peer answers pings (yamux does) but never accepts a stream: no server on it
-			vs.srv = grpc.NewServer(grpc.UnaryInterceptor(h.intercept(vs.id)))
+			vs.lis = &vccRecListener{}
+			vs.srv = grpc.NewServer(grpc.UnaryInterceptor(h.intercept(vs.id)), grpc.StatsHandler(vs.lis))
 			adminservice.RegisterAdminServiceServer(vs.srv, &testservices.EchoAdminService{
 				ServiceName: strconv.Itoa(vs.id), Logger: log.NewNoopLogger(), Namespaces: map[string]bool{}, PayloadSize: 16})
-			go func() { _ = vs.srv.Serve(vs.peerSess) }()
+			vs.lis.Listener = vs.peerSess
+			go func() { _ = vs.srv.Serve(vs.lis) }()
 		}
 		select {
 		case ch <- l:
@@ -645,6 +705,34 @@ func (h *vccHarness) exec(cmd vccCmd, idx int) bool {
 			for !vccDialHangs() && time.Now().Before(dl) {
 				time.Sleep(200 * time.Microsecond)
 			}
+		}
+	case "Reset":
+		// the peer loses the gRPC transport of session K: the yamux STREAM(s) its server accepted are closed, the session
+		// stays alive and registered. The client connection re-dials the same endpoint (bound to happen: round_robin
+		// reconnects by itself) - the harness waits for that new stream, so calls issued afterwards do not race with
+		// the client still noticing the loss.
+		h.mu.Lock()
+		vs := h.sess[cmd.K]
+		ok := vs != nil && vs.lis != nil && h.tableHas(cmd.K)
+		if ok {
+			h.emit(map[string]interface{}{"ev": "Cmd", "a": "Reset", "k": cmd.K})
+		}
+		h.mu.Unlock()
+		if !ok {
+			return false
+		}
+		// never in the middle of a handshake: a connect attempt that fails puts the endpoint into gRPC's back-off, during
+		// which calls fail fast - that would be the environment refusing connections, not the transport being lost
+		if !h.poll(func() bool { return vs.lis.count() > 0 && vs.lis.ready() }) {
+			h.quiet("connect")
+			return true
+		}
+		before := vs.lis.reset()
+		ok = h.poll(func() bool { return vs.lis.count() > before && vs.lis.ready() })
+		h.log(map[string]interface{}{"ev": "Redial", "k": cmd.K, "ok": ok})
+		if !ok {
+			h.quiet("redial")
+			return true
 		}
 	case "AddRelease":
 		h.mu.Lock()
